@@ -110,8 +110,9 @@ def candidates(u):
                 except ValueError:
                     pass
     for i in (k + 1 for k, c in enumerate(u) if c == "/"):
-        # the tail of an AMP / Marfeel cache path, literally
-        out.add("https://" + u[i:])
+        # the tail of an AMP / Marfeel cache path, literally - when there is one before the query / fragment
+        if u[i:i + 1] not in ("", "?", "#"):
+            out.add("https://" + u[i:])
     return out
 
 
